@@ -198,6 +198,11 @@ def work_generic(prop, tier, seed, widx, nworkers):
                 if prop == 'C19':
                     case['store'] = True
                     case['gate_saves'] = rng.choice([0.0, 0.5])
+                    if rng.random() < 0.15:
+                        # overlapping runs of the chart: every run's artifacts go under that run's id
+                        case['runs'] = [['r0', val]] + [[f'r{i}', rng.choice([0, 1, 2, 3])] for i in range(1, rng.randint(2, 3))]
+                        case['shape'] = 'overlap'
+                        acc.counters['overlapping_cases'] = acc.counters.get('overlapping_cases', 0) + 1
                 if prop == 'C04':
                     case['gate_events'] = rng.choice([0.3, 0.7, 1.0])
                 if prop in ('C01', 'C03', 'C04', 'C11', 'C14') and rng.random() < 0.3:
